@@ -241,7 +241,11 @@ htp_status_t htp_ch_multipart_callback_request_body_data(htp_tx_data_t *d) {
             // Use text parameters.
             if (part->type == MULTIPART_PART_TEXT) {
                 htp_param_t *param = calloc(1, sizeof (htp_param_t));
-                if (param == NULL) return HTP_ERROR;
+                if (param == NULL) {
+                    // Some names and values may already belong to the transaction.
+                    tx->request_mpartp->gave_up_data = 1;
+                    return HTP_ERROR;
+                }
                 param->name = part->name;
                 param->value = part->value;
                 param->source = HTP_SOURCE_BODY;
@@ -250,6 +254,8 @@ htp_status_t htp_ch_multipart_callback_request_body_data(htp_tx_data_t *d) {
 
                 if (htp_tx_req_add_param(tx, param) != HTP_OK) {
                     free(param);
+                    // Some names and values may already belong to the transaction.
+                    tx->request_mpartp->gave_up_data = 1;
                     return HTP_ERROR;
                 }
             }
